@@ -298,7 +298,7 @@ X04_NoCrash == ~crashed
 \* a step appends at most one entry, and only the proposing step does (no unsolicited second proposal)
 P_LogStep(isPropose) ==
   /\ Len(log') <= Len(log) + (IF isPropose THEN 1 ELSE 0)
-  /\ SubSeq(log', 1, Len(log)) = log
+  /\ Len(log') >= Len(log) /\ SubSeq(log', 1, Len(log)) = log
 
 \* the propose step: the appended entry is the request's and its precondition holds in the committed state
 P_Propose(i) ==
